@@ -60,7 +60,7 @@ Proof.
   set (G := hypergraph_to_species_graph include_mol H) in *.
   unfold species_graph_to_hypergraph. rewrite (entries_flat G) by (intros; eapply ai_ne; eauto).
   fold (sg_ents G). cbn [orb].
-  pose proof (sg_ents_spec H G HA HN H2) as Hspec. pose proof (sg_ents_dom H G HA HN H2) as Hdom.
+  pose proof (sg_ents_spec H G (AInv_VAInv _ _ HA) HN H2) as Hspec. pose proof (sg_ents_dom H G (AInv_VAInv _ _ HA) HN H2) as Hdom.
   rewrite bool_decide_eq_false_2.
   2:{ intros (e & ent & He & Hc). destruct (Hspec e ent He) as (rx & _ & Hcl & _). congruence. }
   set (l := sort_by_key (map_to_list (sg_ents G))).
